@@ -64,7 +64,7 @@ func symEntryFull(name string, v uint64) *entry.Entry {
 		Payload: vx.Bytes(name+".payload", vx.Param("L", 2)),
 		LogID:   string(vx.BytesN(name+".logid", 1)),
 		Next:    cids(10, vx.Choice(name+".nNext", 3)),
-		Refs:    cids(20, vx.Choice(name+".nRefs", 3)),
+		Refs:    cids([]int{20, 11}[vx.Choice(name+".refsOverlap", 2)], vx.Choice(name+".nRefs", 3)), // base 11: the lists may share an identifier
 		V:       v,
 		Key:     vx.BytesN(name+".key", 1),
 		Sig:     vx.BytesN(name+".sig", 1),
@@ -313,9 +313,14 @@ func H_C08_legacy() {
 // jsonSame: equality of two byte strings after encoding/json's coercion to valid UTF-8 (the legacy format stores
 // the payload as a JSON string, which cannot carry arbitrary bytes).
 func jsonSame(a, b []byte) bool {
+	// through a JSON string and back: what encoding/json makes of the bytes (invalid UTF-8 -> U+FFFD)
+	var sa, sb string
 	ja, err1 := json.Marshal(string(a))
 	jb, err2 := json.Marshal(string(b))
-	return err1 == nil && err2 == nil && bytes.Equal(ja, jb)
+	if err1 != nil || err2 != nil || json.Unmarshal(ja, &sa) != nil || json.Unmarshal(jb, &sb) != nil {
+		return false
+	}
+	return sa == sb
 }
 
 var _ = register("H_C08_legacy", H_C08_legacy)
